@@ -1279,6 +1279,14 @@ where
     > {
         let agg_id = self.role_try_from(agg_id)?;
 
+        if let Prio3InputShare::Leader { proofs_share, .. } = msg {
+            if proofs_share.len() != self.typ.proof_len() * self.num_proofs() {
+                return Err(VdafError::Uncategorized(
+                    "unexpected length of leader proofs share".to_string(),
+                ));
+            }
+        }
+
         let (measurement_share, proofs_share) = match msg {
             Prio3InputShare::Leader {
                 measurement_share,
@@ -1312,8 +1320,13 @@ where
 
         // Compute the joint randomness.
         let (joint_rand_seed, joint_rand_part, joint_rands) = if self.typ.joint_rand_len() > 0 {
+            let joint_rand_blind = msg.joint_rand_blind().ok_or_else(|| {
+                VdafError::Uncategorized(
+                    "input share is missing the joint randomness blind".to_string(),
+                )
+            })?;
             let mut joint_rand_part_xof = P::init(
-                msg.joint_rand_blind().as_ref().unwrap().as_ref(),
+                joint_rand_blind.as_ref(),
                 &[&self.domain_separation_tag(DST_JOINT_RAND_PART), ctx],
             );
             joint_rand_part_xof.update(&[agg_id]);
